@@ -164,8 +164,9 @@ func (sgi ShardGroupInfo) TargetShards(mst *MeasurementInfo, ski *ShardKeyInfo, 
 	}
 	var shardKeyAndValue []byte
 	shards := make([]ShardInfo, 0, len(sgi.Shards))
-	shardKeyAndValue = append(shardKeyAndValue, mst.Name...)
 	for tagGroupIdx := range tagsGroup {
+		// every tag group (one per OR branch) is hashed on its own
+		shardKeyAndValue = append(shardKeyAndValue[:0], mst.Name...)
 		sort.Sort(tagsGroup[tagGroupIdx])
 		i, j := 0, 0
 		for i < len(ski.ShardKey) && j < len(*tagsGroup[tagGroupIdx]) {
